@@ -151,7 +151,8 @@ func (g *worldGen) value(te *gq.TypeExpr, depth int) interface{} {
 		return nil
 	}
 	if g.pct(g.k.NanInf) {
-		return M{"$go": g.r.Pick([]string{"nan", "inf"})}
+		// non-finite floats of both widths and signs
+		return M{"$go": g.r.Pick([]string{"nan", "inf", "ninf", "nan32", "inf32", "ninf32"})}
 	}
 	switch te.Kind {
 	case "nonNull":
@@ -386,6 +387,14 @@ func (rt *Runtime) goValue(v interface{}, path []interface{}) interface{} {
 				return math.NaN()
 			case "inf":
 				return math.Inf(1)
+			case "ninf":
+				return math.Inf(-1)
+			case "nan32":
+				return float32(math.NaN())
+			case "inf32":
+				return float32(math.Inf(1))
+			case "ninf32":
+				return float32(math.Inf(-1))
 			case "badfunc":
 				return func() int { return 1 }
 			}
